@@ -59,6 +59,14 @@ finally:
     shutil.rmtree(w, ignore_errors=True)
 if ok:
     dst = os.path.join(V, "seeded", "%s-%s" % (pid, n))
+    if os.path.realpath(dst) == os.path.realpath(src):      # re-confirmation in place
+        old = json.load(open(os.path.join(dst, "meta.json"))) if os.path.exists(os.path.join(dst, "meta.json")) else {}
+        for k in ("note", "also_checks", "needs"):
+            if k in old:
+                meta[k] = old[k]
+        meta["breaks"] = pid
+        json.dump(meta, open(os.path.join(dst, "meta.json"), "w"), indent=1)
+        sys.exit(0)
     if os.path.exists(dst):
         shutil.rmtree(dst)
     os.makedirs(dst)
